@@ -42,17 +42,23 @@ def oracle(spec: dict, res: dict, failing: bool):
             types = sorted(tok[x][3] for x in d if x in tok)
             if types.count("JobToken") != 1 or len(d) != len(n["ins"]) + 1:
                 yield "job-output-not-linked-to-job-token-and-inputs", f"exec node {n['id']} output {tag}: dependee types {types}, {len(n['ins'])} inputs"
+            else:
+                # ... to ITS job token and to the inputs of THAT job: every dependee carries the tag of the job
+                wrong = sorted((tok[x][3], tok[x][2]) for x in d if x in tok and tok[x][2] != tag)
+                if wrong:
+                    yield "job-output-linked-to-another-job-or-other-inputs", (
+                        f"exec node {n['id']} output {tag} depends on tokens with other tags: {wrong[:4]} (type, tag)")
 
 
 class C07(Property):
     pid = "C07"
     title = "Recorded provenance is complete and acyclic"
-    lean_targets = ["SFV.Props.C07", "SFV.Props.C07Net"]
+    lean_targets = ["SFV.Model.Exec", "SFV.Model.TfMachine", "SFV.Model.LoopComb", "SFV.Gen.StepGuards", "SFV.Props.C07", "SFV.Props.C07Net"]
     props_files = ["SFV/Props/C07.lean", "SFV/Props/C07Net.lean"]
     drivers = ["Drivers/Net.lean"]
     translators = []
     rule = ("the token and provenance tables of the SQLite database are dumped after every run of random well-formed DAG workflows "
-            "(sfv.rt.wfgen, real step classes incl. job pipelines) under the default order and 2 (quick) / 3 (thorough) PRNG interleavings; "
+            "(sfv.rt.wfgen, real step classes incl. job pipelines) under the default order and 1 (quick) / 3 (thorough) PRNG interleavings; "
             "one third of the workflows with an injected transformer failure (table-level checks only). Checked per run: dependee id < "
             "depender id on every row, no dangling id, no cycle (DFS), every data token of every port persisted, the edge set (tokens "
             "identified by port:tag) equal to what the property demands (oracle) and to the Lean model `prov` (driver); job outputs linked "
@@ -78,13 +84,38 @@ class C07(Property):
     thorough_budget_s = 2400
     min_nontrivial = 12
 
+
+    CHUNK = 8
+
+    def _runs_for(self, ctx, pre, items, i, job_of, **kw):
+        """runs of item i; the items of a chunk run in parallel worker processes (wfcheck.run_many)"""
+        if i not in pre:
+            chunk = items[i:i + self.CHUNK]
+            outs = wfcheck.run_many([job_of(it) for it in chunk], ctx.scratch, **kw)
+            pre.update({i + j: o for j, o in enumerate(outs)})
+        return pre.pop(i)
+
     def explore(self, ctx: Ctx) -> None:
         rng = ctx.rng
-        n, k = (200, 3) if ctx.tier == "thorough" else (40, 2)
+        n, k = (200, 3) if ctx.tier == "thorough" else (30, 1)
         if ctx.mode == "search":
             n, k = n * 2, k + 2
         lines, metas = [], []
+        items, pre = [], {}
         for i in range(n):
+            feats = {"exec": 4} if rng.random() < 0.35 else ({"cart": 4, "gather": 6} if rng.random() < 0.25 else ({"loop": 3} if rng.random() < 0.25 else None))
+            spec = wfgen.gen_spec(rng, size=rng.randint(2, 12), features=feats)
+            if i < len(wfgen.CORPUS):
+                spec = json.loads(json.dumps(wfgen.CORPUS[i]))
+            failing = rng.random() < 0.33 and i >= len(wfgen.CORPUS)      # the corpus always runs failure-free: exact edge sets
+            fspec = wfgen.choose_failure(rng, spec, loop_upstream_prob=0.0) if failing else None   # loop hangs belong to C04
+            if fspec is None:
+                failing = False
+            seeds = [rng.randrange(1 << 30) for _ in range(k)]
+            if i < len(wfgen.CORPUS):
+                seeds = [2 + j for j in range(k)]      # corpus: fixed schedules, the first one with reverse job completion order
+            items.append((spec, failing, fspec or spec, seeds))
+        for i, (spec, failing, run_spec, seeds) in enumerate(items):
             if ctx.out_of_time():
                 ctx.extra["incomplete"] = True
                 break
@@ -93,18 +124,10 @@ class C07(Property):
                 # heavily loaded machine: the plan is "up to n workflows", at least 20 (quick) / 60 (thorough), corpus included
                 ctx.notes.append(f"soft time limit: stopped after {i} of {n} planned workflows")
                 break
-            feats = {"exec": 4} if rng.random() < 0.35 else ({"cart": 4, "gather": 6} if rng.random() < 0.25 else ({"loop": 3} if rng.random() < 0.25 else None))
-            spec = wfgen.gen_spec(rng, size=rng.randint(2, 12), features=feats)
             if i < len(wfgen.CORPUS):
-                spec = json.loads(json.dumps(wfgen.CORPUS[i]))
                 ctx.corpus_replayed += 1
-            failing = rng.random() < 0.33
-            fspec = wfgen.choose_failure(rng, spec, loop_upstream_prob=0.0) if failing else None   # loop hangs belong to C04
-            if fspec is None:
-                failing = False
-            run_spec = fspec or spec
-            seeds = [rng.randrange(1 << 30) for _ in range(k)]
-            runs = wfcheck.run_schedules(run_spec, seeds, ctx.scratch, timeout=30.0, confirm_hangs=not failing, stop_on_hang=True)
+            runs = self._runs_for(ctx, pre, items, i, lambda it: {"spec": it[2], "seeds": it[3], "confirm_hangs": not it[1]},
+                                  timeout=30.0, stop_on_hang=True)
             nrows = [len(r.get("db", {}).get("provenance", [])) for r in runs]
             key = ("wf", json.dumps(run_spec, sort_keys=True)) if max(nrows, default=0) >= 4 else None
             ctx.case({"spec": run_spec, "failing": failing, "provenance_rows": nrows}, key, ("fail+" if failing else "ok+") + wfcheck.spec_bucket(spec))
